@@ -28,7 +28,14 @@ def clocks(tier):
 
 def the_specs():
     sp = c15.specs('quick')
-    return [sp[1], sp[5]]
+    # third ruleset: pre-terminals with several transitions and several values per transition (A1 C1 D1), so that a request can arrive while
+    # the generation loop is in the middle of such a pre-terminal and still holds its parse tree
+    multi = dict(c15.D.TERMINALS[0])
+    multi.update(grammar=[('A1D1', .6), ('M', .4)], prince=c15.D.PRINCE, omen=c15.omen(c15.OMEN_X, [(1, .5), (2, .25)]), name='multi-transition pre-terminals')
+    return [sp[1], sp[5], multi]
+
+
+REDUCED_CLOCK = {2}      # indices of the rulesets that are run under a few clock values only
 
 
 def shards():
@@ -61,6 +68,8 @@ def run(shard, tier, acc):
         sessions.append(('resumed with %d s on the clock' % saved, sav, A.omn, ['-r', 'v', '--load'], RU.stdout))
     for name, sav, omn, argv, ref in sessions:
         ts = clocks(tier) if sav is None else [0.0, 61.0, 86400.0 + 3661, 2 * 86400.0 + 2 * 3661]
+        if i in REDUCED_CLOCK:
+            ts = [0.0, 2 * 86400.0 + 2 * 3661]
         for T in ts:
             for j in range(1, len(ref) + 1):
                 S.set_session(td, sav, omn)
